@@ -57,6 +57,11 @@ type c03Input struct {
 	Mode string `json:"mode,omitempty"`
 	Idx  int    `json:"idx,omitempty"`
 	Mask byte   `json:"mask,omitempty"`
+	// shared-instance scenarios (op "shared", see shared.go)
+	What  string `json:"what,omitempty"` // aead | symkey | block | asymkey
+	G     int    `json:"g,omitempty"`    // goroutines (1 = one instance used sequentially)
+	Iters int    `json:"iters,omitempty"`
+	Seed  uint64 `json:"seed,omitempty"`
 	// Why: for derived symdec inputs, what was done to an authentic output (statistics only)
 	Why string `json:"why,omitempty"`
 }
@@ -206,8 +211,28 @@ func (o c03Obs) coq(okTerm string) string {
 	return "ObsPanic"
 }
 
+// c03Ovr, when set, makes c03Run record a case whose observation was made elsewhere (an operation
+// of a shared-instance scenario): the kit call is not repeated, the input of the case is the
+// scenario (so that a replay re-runs the scenario, not the single operation).
+type c03Override struct {
+	obs    c03Obs
+	input  json.RawMessage
+	direct int
+	note   string
+	tag    string
+}
+
+var c03Ovr *c03Override
+
 // guard runs f and turns a panic into the panic observation.
 func guard(f func() c03Obs) (o c03Obs) {
+	if c03Ovr != nil {
+		return c03Ovr.obs
+	}
+	return guardRun(f)
+}
+
+func guardRun(f func() c03Obs) (o c03Obs) {
 	defer func() {
 		if r := recover(); r != nil {
 			o = c03Obs{Class: "panic", Note: fmt.Sprint(r)}
@@ -670,6 +695,12 @@ func c03Run(ctx *core.Ctx, in c03Input) (c03Obs, error) {
 		return o, fmt.Errorf("bad op %q", in.Op)
 	}
 	c.Observed = o
+	if c03Ovr != nil {
+		c.Kind, c.Input, c.Direct, c.Note = "shared", c03Ovr.input, c03Ovr.direct, c03Ovr.note
+		c.Class = "shared/" + c03Ovr.tag + "/" + c.Class
+		c.Trivial = false
+		c.Facts["shared"] = c03Ovr.tag
+	}
 	ctx.Sink.Count("op=" + in.Op)
 	if in.Alg != "" {
 		if _, known := c03Sym[in.Alg]; known || c03AsymRoute[in.Alg] || strings.HasSuffix(in.Alg, "256") ||
@@ -822,6 +853,9 @@ func c03Gen(ctx *core.Ctx) {
 	// --- (J) long inputs: counters and length fields over their byte boundaries (first: these are
 	// the most expensive cases for the model, their shards should start first)
 	c03GenLong(ctx)
+
+	// --- (K) one instance shared: sequences on, and goroutines around, every reusable object
+	c03GenShared(ctx)
 
 	// --- (A) the sentinel grid: key sizes x nonce lengths 0..32 x tag lengths 0..32
 	for _, alg := range algs {
@@ -1227,6 +1261,16 @@ func main() {
 			var in c03Input
 			if err := json.Unmarshal(raw, &in); err != nil {
 				return err
+			}
+			if in.Op == "shared" {
+				// a recorded scenario (replay, corpus): an interleaving-dependent failure may need
+				// several runs to show again; a scenario that stays clean is recorded once
+				for try := 0; ; try++ {
+					n, err := c03RunShared(ctx, in, try < 40)
+					if err != nil || n > 0 || try >= 40 {
+						return err
+					}
+				}
 			}
 			_, err := c03Run(ctx, in)
 			return err
